@@ -2,7 +2,7 @@
 # re-evaluates every stored seeded change (3 in parallel, staggered) and regenerates seeded/RESULTS.md
 cd /verif/seeded
 names=$(ls -d C* | tr '\n' ' ')
-run() { for n in "$@"; do p=${n:0:3}; extra=""; [ "$n" = C01b ] && extra="C14"; [ "$n" = C03c ] && extra="C01"; EXTRA_PROPS="$extra" /verif/sim/tools/seeded.sh $p /verif/seeded/$n $n > /tmp/seeded_$n.log 2>&1; echo "$n: $(grep '^==' /tmp/seeded_$n.log | cut -c1-160 | tr '\n' ' ')"; done; }
+run() { for n in "$@"; do p=${n:0:3}; extra=""; [ "$n" = C01b ] && extra="C14"; [ "$n" = C03c ] && extra="C01"; [ "$n" = C08e ] && extra="C20"; [ "$n" = C18e ] && extra="C11"; EXTRA_PROPS="$extra" /verif/sim/tools/seeded.sh $p /verif/seeded/$n $n > /tmp/seeded_$n.log 2>&1; echo "$n: $(grep '^==' /tmp/seeded_$n.log | cut -c1-160 | tr '\n' ' ')"; done; }
 set -- $names
 a=(); b=(); c=(); i=0
 for n in "$@"; do case $((i%3)) in 0) a+=($n);; 1) b+=($n);; 2) c+=($n);; esac; i=$((i+1)); done
